@@ -93,6 +93,9 @@ def run(chk):
             ntight += 1
     chk.count("budget_bound", len(bcases), undefined_syntactic=sum(1 for m_ in bmeta if m_[3] == '-'), fails_one_pass_below=ntight)
     addr_layout_stream(chk, quick, R)
+    # banks that are sized but not writable (labels and reservations up to and past the bank end): Model/Resolver2.v
+    import ext_resolver2
+    ext_resolver2.run_streams(chk, quick, which=("nonwritable",))
     chk.count("programs", len(progs), **dist)
     chk.cov["traces_validated_against_impl"] = len(progs)
     chk.cov["disagreements_checked"] = ndis
